@@ -143,6 +143,36 @@ fn c01_forward(ctx: &Ctx, rec: &mut Rec, e: &SE) {
             if fe != bytes {
                 rec.violation(format!("{P}:forward:field-form-differs"), "vartime_compress_to_field().to_bytes() != vartime_compress()", json!({"element": el_json(&e.l), "bytes": hx(&bytes), "field": hx(&fe)}));
             }
+            // the stream decoders, fed by readers that deliver the encoding in pieces, are decoders too
+            #[cfg(feature = "ark")]
+            {
+                use ark_ec::CurveGroup;
+                use ark_serialize::{CanonicalDeserialize, CanonicalSerialize};
+                use ark_std::io::Read;
+                type Af = <El as CurveGroup>::Affine;
+                let cut = 1 + (bytes[0] as usize + bytes[7] as usize) % 31;
+                let step = 1 + bytes[1] as usize % 9;
+                let b2 = bytes;
+                let res = guarded(move || {
+                    let a = El::deserialize_compressed((&b2[..cut]).chain(&b2[cut..])).map(|d| d == l);
+                    let t = Af::deserialize_compressed(crate::fld::Trickle { data: &b2, pos: 0, step }).map(|d| El::from(d) == l);
+                    // a vector of elements written and read back through a reader with small reads
+                    let v = vec![l, -l, l + l];
+                    let mut buf = Vec::new();
+                    v.serialize_compressed(&mut buf).map_err(|_| ark_serialize::SerializationError::InvalidData)?;
+                    let mut rd = crate::fld::Trickle { data: &buf[8..], pos: 0, step: step + 20 };
+                    let mut back = Vec::new();
+                    for _ in 0..3 {
+                        back.push(El::deserialize_compressed(&mut rd)?);
+                    }
+                    Ok::<_, ark_serialize::SerializationError>((a?, t?, back == v))
+                });
+                rec.count("stream_roundtrips", 1);
+                match res {
+                    Ok(Ok((true, true, true))) => {}
+                    other => rec.violation(format!("{P}:forward:stream-decoders"), format!("stream decoding of encode(E) through readers with partial progress (chained at {cut}, {step} bytes per read, vector of three) does not give back E: {other:?}"), json!({"element": el_json(&e.l), "bytes": hx(&bytes)})),
+                }
+            }
             match d {
                 Err(_) => rec.violation(format!("{P}:forward:encoding-rejected"), format!("decode(encode(E)) failed for a valid element ({})", e.class), json!({"element": el_json(&e.l), "bytes": hx(&bytes), "model": pt_json(&e.m)})),
                 Ok((eq1, eq2, d)) => {
